@@ -1,4 +1,5 @@
 import MpdProofs.Lemmas.Skeleton
+import MpdProofs.Lemmas.StreamRun
 /-!
 # C05 — the client's output is always a legal MPD session (idle/noidle discipline)
 
@@ -10,8 +11,17 @@ race in which the server answers `idle` spontaneously at the moment the client s
 (the stale `noidle` is ignored by the server, the client consumes exactly one reply either way).
 `C05_reidle`: in the window after a reply, timer expiry makes the client write `idle` again.
 
-PARTIAL: the refinement from the byte-level task model to this skeleton is validated per trace by
-the correspondence run (oracle = `Spec.Server` fed with the implementation's own writes), not proved.
+Byte level, ALL runs of the task model (`C05_byte_one_outstanding`, from `Loop.run_decodes`): the
+reply-producing lines written so far (`password`, `idle`, requests — classified by the call site
+that wrote them) are, in order, exactly the consumers of the responses consumed so far from the
+delivered stream, followed by at most ONE line whose reply is still awaited. Hence a request (or a
+new `idle`) is written only after the reply to the previous `idle` has been consumed — i.e. after the
+server has left its idle state — and `C05_step_writes` gives the per-step form: what a step writes
+is exactly what it then waits for.
+
+PARTIAL: that the server leaves idle exactly when it sends the idle reply, and ignores a stale
+`noidle`, is the server side (`Spec.Server`), checked per trace by the correspondence run (oracle =
+`Spec.Server` fed with the implementation's own writes), not composed with the client in one theorem.
 -/
 namespace Mpd.C05
 open Mpd Mpd.Skeleton
@@ -27,5 +37,18 @@ theorem C05_one_reply (as : List Act) : (as.foldl step {}).s2c.length ≤ 1 := o
 theorem C05_reidle (s : Sys) (h : s.pc = .waitNext) :
     (step s .tick).pc = .idling ∧ (step s .tick).c2s = s.c2s ++ [.idle] := by
   simp [step, h]
+
+/-- **byte level, all runs**: one reply-producing line outstanding at most, and the lines written are
+answered in order by the responses consumed -/
+theorem C05_byte_one_outstanding (s0 s : Loop.St) (D : Bytes) (h0 : Loop.AfterGreeting s0) (hr : Loop.Run s0 s D) :
+    Loop.Terminal s ∨ ∃ cs : List (Loop.Consumer × Builder.Response),
+      (∀ q, Loop.Decodes .initial (D ++ q) (cs.map (·.2)) (Loop.future s q)) ∧
+      Loop.replyWrites s.obs = cs.map (·.1) ++ Loop.outstanding s.pc ∧ (Loop.outstanding s.pc).length ≤ 1 :=
+  Loop.one_outstanding s0 s D h0 hr
+
+/-- per step: silent steps write exactly what they additionally wait for; consuming steps waited
+for exactly one reply and write exactly what they wait for next -/
+theorem C05_step_writes (s s' : Loop.St) (rf : Bool) (hc : s.pc ≠ .connecting) (h : Loop.step s rf = some s') :
+    Loop.Effect s s' := Loop.step_effect s s' rf hc h
 
 end Mpd.C05
